@@ -77,6 +77,55 @@ theorem simplifyFlat_ok (e : Exp α) (s : St α) (r : Exp α × St α) :
   | none => simp [fail_ok]
   | some fl => simp [pure_ok]
 
+/-- the linear model assembled from the objective context and the final state. -/
+def assemble (m : Model α) (obj : Ctx α) (s : St α) : LinModel α :=
+  let rows := dedupNames s.rows
+  let vars := sortStr ((s.domain.filter (fun d => d.usage > 0)).map (·.name))
+  let dom := s.domain.filter fun d => vars.contains d.name
+  { optType := m.optType
+    objective := extractCoeffs obj.vars vars
+    offset := obj.rhs
+    vars := vars
+    domain := dom
+    rows := rows.map fun r => { name := r.name, coeffs := extractCoeffs r.lhs vars, cmp := r.cmp, rhs := r.rhs } }
+
+def objReq (m : Model α) : Req := match m.optType with | .min => .lower | .max => .higher | .satisfy => .exact
+
+theorem linearizeWith_ok_iff (m : Model α) (b : BoundsMap α) (d : List (DomVar α)) (lm : LinModel α) :
+    linearizeWith m b d = .ok lm ↔
+      ∃ objExp s1 obj s2 s3,
+        simplifyFlat m.objective { queue := m.constraints, domain := d, bounds := b } = .ok (objExp, s1) ∧
+        linExp objExp (objReq m) s1 = .ok (obj, s2) ∧
+        drain drainFuel s2 = .ok ((), s3) ∧ lm = assemble m obj s3 := by
+  unfold linearizeWith
+  simp only
+  split
+  · rename_i lm' sf hprog
+    simp only [bind_ok, get_ok, pure_ok] at hprog
+    obtain ⟨objExp, s1, h1, obj, s2, h2, u, s3, h3, s4, s5, h4, h5⟩ := hprog
+    cases h4
+    simp only [Prod.mk.injEq] at h5
+    obtain ⟨rfl, _⟩ := h5
+    constructor
+    · intro h; simp only [Except.ok.injEq] at h; subst h
+      exact ⟨objExp, s1, obj, s2, s3, h1, h2, h3, rfl⟩
+    · rintro ⟨objExp', s1', obj', s2', s3', h1', h2', h3', rfl⟩
+      rw [h1] at h1'; cases h1'
+      have e2 : (Except.ok (obj, s2) : Except LinErr _) = Except.ok (obj', s2') := h2.symm.trans h2'
+      cases e2
+      rw [h3] at h3'; cases h3'
+      rfl
+  · rename_i e hprog
+    constructor
+    · intro h; cases h
+    · rintro ⟨objExp', s1', obj', s2', s3', h1', h2', h3', rfl⟩
+      exfalso
+      have key : (Except.error e : Except LinErr (LinModel α × St α)) = Except.ok (assemble m obj' s3', s3') :=
+        hprog.symm.trans (by
+          simp only [bind_ok, get_ok, pure_ok]
+          exact ⟨_, _, h1', _, _, h2', (), _, h3', _, _, rfl, rfl⟩)
+      cases key
+
 end loop
 
 variable {K : Type} [Field K] [LinearOrder K] [IsStrictOrderedRing K] [FloorRing K]
